@@ -691,6 +691,13 @@ func (conn *Tunnel) Close() {
 		conn.wait.Wait()
 
 		conn.sock.Close()
+
+		// Nobody reads from the socket anymore. Take whatever its receiver still wants to hand over
+		// (e.g. the disconnect response), otherwise it stays blocked on that frame forever.
+		go func() {
+			for range conn.sock.Inbound() {
+			}
+		}()
 	})
 }
 
